@@ -1,7 +1,7 @@
 SPECIFICATION MSpec
 CONSTANTS
   WrapFix = TRUE
-  Vals = {1, 2, 3, 4}
+  Vals = {1, 2, 3, 4, 5, 6, 7}
   Epoch = 1
   InitNumber = 1
   InitSet = {1, 2, 3, 4}
